@@ -55,6 +55,7 @@ Definition raw_distributions (pools : store pool) (p : reward_period) (td bd : Z
 
 (* CalcProviderDistributionAmount *)
 Definition calc_provider_amount (rowan_pd pool_units lp_units : Z) : Z :=
+  if pool_units =? 0 then 0 else     (* a pool without units hands out no shares (fix of finding F-25; before it: Dec.Quo by zero) *)
   dec_round_int (dec_mul (dec_quo (dec_of_int lp_units) (dec_of_int pool_units)) rowan_pd).
 
 (* CollectProviderDistribution: lps = list of (address id, units) in store order.
